@@ -23,6 +23,8 @@ type burstResult struct {
 	SpendBursts  int      `json:"spend_bursts"`
 	KeyBursts    int      `json:"key_bursts"`
 	SelectBursts int      `json:"select_bursts"`
+	// WarmSelectBursts: selector bursts on warm caches with selections that fail and release
+	WarmSelectBursts int `json:"warm_select_bursts"`
 	Admitted     int      `json:"admitted"`
 	Refused      int      `json:"refused"`
 	Problems     []string `json:"problems"`
@@ -109,7 +111,49 @@ func runBursts(seed int64, n int) (res burstResult) {
 	}
 	for b := 0; b < n && len(res.Problems) == 0; b++ {
 		res.Bursts++
-		switch b % 4 {
+		switch b % 5 {
+		case 4: // locking selectors on WARM caches, some of them asking for more than there is
+			// the spend bursts pay K2 / K3: their pending outputs sit in the output cache, so these
+			// selections walk the cache (under the cache's lock) while others - having reserved what
+			// they could and found it not enough - give their reservations back
+			addr := sn.K(2 + (b/5)%2).Address
+			// (the cold-cache bursts restart the node: warm the cache again with fresh payments)
+			for w := 0; w < 4 && nextCoin < 400; w++ {
+				in := &protos.TxInput{RefTxid: splitID, RefOffset: int32(nextCoin), FromAddr: []byte(sn.K(0).Address), Amount: big.NewInt(60).Bytes()}
+				nextCoin++
+				x, err := sn.BuildTx(sn.TxSpec{Initiator: sn.K(0).Address, Signers: []*sn.Key{sn.K(0)}, Inputs: []*protos.TxInput{in},
+					Outputs: []sn.Out{{To: addr, Amount: big.NewInt(60)}}, Nonce: fmt.Sprintf("warm%d-%d", b, w), Timestamp: int64(b)})
+				if err == nil && node.State.DoTx(sn.CloneTx(x)) == nil {
+					res.Admitted++
+				}
+			}
+			var mu sync.Mutex
+			var fs []func() error
+			for i := 0; i < 6; i++ {
+				i := i
+				fs = append(fs, func() error {
+					var last error
+					for c := 0; c < 6; c++ {
+						amount := int64(60 * (1 + (i+c)%3))
+						if (i+c)%3 == 2 {
+							amount = 1 << 40 // never enough: reserves everything it meets, then releases it all
+						}
+						ins, _, _, err := node.State.SelectUtxos(addr, big.NewInt(amount), true, false)
+						last = err
+						mu.Lock()
+						if err == nil {
+							res.Admitted++
+						} else {
+							res.Refused++
+						}
+						_ = ins
+						mu.Unlock()
+					}
+					return last
+				})
+			}
+			res.WarmSelectBursts++
+			fire(fs)
 		case 0: // 4-6 spenders of ONE output of K0
 			if nextCoin >= 400 {
 				continue
